@@ -27,54 +27,35 @@
   `Next<f64>` impl in Rust: `x.next(1.0)` does not type-check, so `Op.next _` is mapped to
   "state unchanged" for them.  TrueRange and OnBalanceVolume have no parameters, an
   infallible `new()` and no structural invariant.
+
+  Dependencies.  Only `Lemmas/Core` (`fresh`, `WF`, `new_eq`, `fresh_wf`) and the VALUE-AGNOSTIC
+  `Lemmas/Total` (`next_total` / `nextBar_total` / `reset_total`) are imported — neither the normal
+  forms `next_eq` nor `reset_eq` — so a change of the Rust code that only alters an arithmetic value
+  leaves this file intact, whereas one that can panic or loses the invariant does not.
 -/
 import TaRs.Lemmas.Machine
-import TaRs.Lemmas.SimpleMovingAverage
-import TaRs.Lemmas.ExponentialMovingAverage
-import TaRs.Lemmas.WeightedMovingAverage
-import TaRs.Lemmas.StandardDeviation
-import TaRs.Lemmas.MeanAbsoluteDeviation
-import TaRs.Lemmas.RelativeStrengthIndex
-import TaRs.Lemmas.Minimum
-import TaRs.Lemmas.Maximum
-import TaRs.Lemmas.FastStochastic
-import TaRs.Lemmas.SlowStochastic
-import TaRs.Lemmas.TrueRange
-import TaRs.Lemmas.AverageTrueRange
-import TaRs.Lemmas.MovingAverageConvergenceDivergence
-import TaRs.Lemmas.PercentagePriceOscillator
-import TaRs.Lemmas.CommodityChannelIndex
-import TaRs.Lemmas.EfficiencyRatio
-import TaRs.Lemmas.BollingerBands
-import TaRs.Lemmas.ChandelierExit
-import TaRs.Lemmas.KeltnerChannel
-import TaRs.Lemmas.RateOfChange
-import TaRs.Lemmas.MoneyFlowIndex
-import TaRs.Lemmas.OnBalanceVolume
-import TaRs.Lemmas.Reset.SlowStochastic
-import TaRs.Lemmas.Reset.RateOfChange
-import TaRs.Lemmas.Reset.RelativeStrengthIndex
-import TaRs.Lemmas.Reset.StandardDeviation
-import TaRs.Lemmas.Reset.EfficiencyRatio
-import TaRs.Lemmas.Reset.PercentagePriceOscillator
-import TaRs.Lemmas.Reset.OnBalanceVolume
-import TaRs.Lemmas.Reset.ExponentialMovingAverage
-import TaRs.Lemmas.Reset.MovingAverageConvergenceDivergence
-import TaRs.Lemmas.Reset.ChandelierExit
-import TaRs.Lemmas.Reset.CommodityChannelIndex
-import TaRs.Lemmas.Misc.CommodityChannelIndex
-import TaRs.Lemmas.Reset.BollingerBands
-import TaRs.Lemmas.Reset.AverageTrueRange
-import TaRs.Lemmas.Misc.AverageTrueRange
-import TaRs.Lemmas.Reset.Maximum
-import TaRs.Lemmas.Reset.WeightedMovingAverage
-import TaRs.Lemmas.Reset.SimpleMovingAverage
-import TaRs.Lemmas.Reset.MoneyFlowIndex
-import TaRs.Lemmas.Reset.FastStochastic
-import TaRs.Lemmas.Reset.KeltnerChannel
-import TaRs.Lemmas.Reset.Minimum
-import TaRs.Lemmas.Reset.MeanAbsoluteDeviation
-import TaRs.Lemmas.Reset.TrueRange
+import TaRs.Lemmas.Total.SimpleMovingAverage
+import TaRs.Lemmas.Total.ExponentialMovingAverage
+import TaRs.Lemmas.Total.WeightedMovingAverage
+import TaRs.Lemmas.Total.StandardDeviation
+import TaRs.Lemmas.Total.MeanAbsoluteDeviation
+import TaRs.Lemmas.Total.RelativeStrengthIndex
+import TaRs.Lemmas.Total.Minimum
+import TaRs.Lemmas.Total.Maximum
+import TaRs.Lemmas.Total.FastStochastic
+import TaRs.Lemmas.Total.SlowStochastic
+import TaRs.Lemmas.Total.TrueRange
+import TaRs.Lemmas.Total.AverageTrueRange
+import TaRs.Lemmas.Total.MovingAverageConvergenceDivergence
+import TaRs.Lemmas.Total.PercentagePriceOscillator
+import TaRs.Lemmas.Total.CommodityChannelIndex
+import TaRs.Lemmas.Total.EfficiencyRatio
+import TaRs.Lemmas.Total.BollingerBands
+import TaRs.Lemmas.Total.ChandelierExit
+import TaRs.Lemmas.Total.KeltnerChannel
+import TaRs.Lemmas.Total.RateOfChange
+import TaRs.Lemmas.Total.MoneyFlowIndex
+import TaRs.Lemmas.Total.OnBalanceVolume
 
 namespace TaRs.Props.C12
 open TaRs TaRs.Gen TaRs.Rs
@@ -95,7 +76,7 @@ private theorem fst_some {S O : Type} {P : S → Prop} {Q : S × O → Prop} {o 
   obtain ⟨r, hr, hp, _⟩ := h
   exact ⟨r.1, by simp [hr], hp⟩
 
-/-- a `reset_wf`-shaped fact with the trailing conjuncts dropped -/
+/-- a `reset_total`-shaped fact with the trailing conjuncts dropped -/
 private theorem drop_tail {S : Type} {P Q : S → Prop} {o : Option S}
     (h : ∃ r, o = some r ∧ P r ∧ Q r) : ∃ s', o = some s' ∧ P s' := by
   obtain ⟨r, hr, hp, _⟩ := h
@@ -121,12 +102,8 @@ theorem sma_total (p : Nat) (hp : 0 < p) (h8 : p * 8 ≤ isizeMax) (ops : List (
     intro s op hs
     cases op with
     | next x => exact fst_some (SimpleMovingAverage.next_total s x hs)
-    | bar b =>
-      have := SimpleMovingAverage.next_total s b.close hs
-      rw [← SimpleMovingAverage.nextBar_eq s b] at this
-      exact fst_some this
-    | reset =>
-      exact ⟨_, SimpleMovingAverage.reset_eq s hs, SimpleMovingAverage.fresh_wf _ hs.pos hs.small⟩)
+    | bar b => exact fst_some (SimpleMovingAverage.nextBar_total s b hs)
+    | reset => exact drop_tail (SimpleMovingAverage.reset_total s hs))
     (SimpleMovingAverage.fresh p) (SimpleMovingAverage.fresh_wf p hp h8) ops
   exact ⟨_, s', hnew, h1, h2⟩
 end SMA
@@ -148,12 +125,8 @@ theorem ema_total (p : Nat) (hp : 0 < p) (ops : List (Op F)) :
     intro s op hs
     cases op with
     | next x => exact fst_some (ExponentialMovingAverage.next_total s x hs)
-    | bar b =>
-      have := ExponentialMovingAverage.next_total s b.close hs
-      rw [← ExponentialMovingAverage.nextBar_eq s b] at this
-      exact fst_some this
-    | reset =>
-      exact ⟨_, ExponentialMovingAverage.reset_eq s hs, ExponentialMovingAverage.fresh_wf _ hs.pos⟩)
+    | bar b => exact fst_some (ExponentialMovingAverage.nextBar_total s b hs)
+    | reset => exact drop_tail (ExponentialMovingAverage.reset_total s hs))
     (ExponentialMovingAverage.fresh p) (ExponentialMovingAverage.fresh_wf p hp) ops
   exact ⟨_, s', hnew, h1, h2⟩
 end EMA
@@ -174,12 +147,8 @@ theorem wma_total (p : Nat) (hp : 0 < p) (h8 : p * 8 ≤ isizeMax) (ops : List (
     intro s op hs
     cases op with
     | next x => exact fst_some (WeightedMovingAverage.next_total s x hs)
-    | bar b =>
-      have := WeightedMovingAverage.next_total s b.close hs
-      rw [← WeightedMovingAverage.nextBar_eq s b] at this
-      exact fst_some this
-    | reset =>
-      exact ⟨_, WeightedMovingAverage.reset_eq s hs, WeightedMovingAverage.fresh_wf _ hs.pos hs.small⟩)
+    | bar b => exact fst_some (WeightedMovingAverage.nextBar_total s b hs)
+    | reset => exact drop_tail (WeightedMovingAverage.reset_total s hs))
     (WeightedMovingAverage.fresh p) (WeightedMovingAverage.fresh_wf p hp h8) ops
   exact ⟨_, s', hnew, h1, h2⟩
 end WMA
@@ -200,12 +169,8 @@ theorem sd_total (p : Nat) (hp : 0 < p) (h8 : p * 8 ≤ isizeMax) (ops : List (O
     intro s op hs
     cases op with
     | next x => exact fst_some (StandardDeviation.next_total s x hs)
-    | bar b =>
-      have := StandardDeviation.next_total s b.close hs
-      rw [← StandardDeviation.nextBar_eq s b] at this
-      exact fst_some this
-    | reset =>
-      exact ⟨_, StandardDeviation.reset_eq s hs, StandardDeviation.fresh_wf _ hs.pos hs.small⟩)
+    | bar b => exact fst_some (StandardDeviation.nextBar_total s b hs)
+    | reset => exact drop_tail (StandardDeviation.reset_total s hs))
     (StandardDeviation.fresh p) (StandardDeviation.fresh_wf p hp h8) ops
   exact ⟨_, s', hnew, h1, h2⟩
 end SD
@@ -226,12 +191,8 @@ theorem mad_total (p : Nat) (hp : 0 < p) (h8 : p * 8 ≤ isizeMax) (ops : List (
     intro s op hs
     cases op with
     | next x => exact fst_some (MeanAbsoluteDeviation.next_total s x hs)
-    | bar b =>
-      have := MeanAbsoluteDeviation.next_total s b.close hs
-      rw [← MeanAbsoluteDeviation.nextBar_eq s b] at this
-      exact fst_some this
-    | reset =>
-      exact ⟨_, MeanAbsoluteDeviation.reset_eq s hs, MeanAbsoluteDeviation.fresh_wf _ hs.pos hs.small⟩)
+    | bar b => exact fst_some (MeanAbsoluteDeviation.nextBar_total s b hs)
+    | reset => exact drop_tail (MeanAbsoluteDeviation.reset_total s hs))
     (MeanAbsoluteDeviation.fresh p) (MeanAbsoluteDeviation.fresh_wf p hp h8) ops
   exact ⟨_, s', hnew, h1, h2⟩
 end MAD
@@ -254,9 +215,7 @@ theorem rsi_total (p : Nat) (hp : 0 < p) (ops : List (Op F)) :
     cases op with
     | next x => exact fst_some (RelativeStrengthIndex.next_total s x hs)
     | bar b => exact fst_some (RelativeStrengthIndex.nextBar_total s b hs)
-    | reset =>
-      have hpos : 0 < s.period := by have := hs.up.pos; have := hs.up_period; omega
-      exact ⟨_, RelativeStrengthIndex.reset_eq s hs, RelativeStrengthIndex.fresh_wf _ hpos⟩)
+    | reset => exact drop_tail (RelativeStrengthIndex.reset_total s hs))
     (RelativeStrengthIndex.fresh p) (RelativeStrengthIndex.fresh_wf p hp) ops
   exact ⟨_, s', hnew, h1, h2⟩
 end RSI
@@ -278,7 +237,7 @@ theorem minimum_total (p : Nat) (hp : 0 < p) (h8 : p * 8 ≤ isizeMax) (ops : Li
     cases op with
     | next x => exact fst_some (Minimum.next_total s x hs)
     | bar b => exact fst_some (Minimum.nextBar_total s b hs)
-    | reset => exact drop_tail (Minimum.reset_wf s hs))
+    | reset => exact drop_tail (Minimum.reset_total s hs))
     (Minimum.fresh p) (Minimum.fresh_wf p hp h8) ops
   exact ⟨_, s', hnew, h1, h2⟩
 end Minimum
@@ -300,7 +259,7 @@ theorem maximum_total (p : Nat) (hp : 0 < p) (h8 : p * 8 ≤ isizeMax) (ops : Li
     cases op with
     | next x => exact fst_some (Maximum.next_total s x hs)
     | bar b => exact fst_some (Maximum.nextBar_total s b hs)
-    | reset => exact drop_tail (Maximum.reset_wf s hs))
+    | reset => exact drop_tail (Maximum.reset_total s hs))
     (Maximum.fresh p) (Maximum.fresh_wf p hp h8) ops
   exact ⟨_, s', hnew, h1, h2⟩
 end Maximum
@@ -363,9 +322,15 @@ theorem tr_total (ops : List (Op F)) :
   obtain ⟨s', h1, _⟩ := lift trStep (fun _ => True) (by
     intro s op _
     cases op with
-    | next x => exact fst_some (Q := fun _ => True) ⟨_, TrueRange.next_eq s x, trivial, trivial⟩
-    | bar b => exact fst_some (Q := fun _ => True) ⟨_, TrueRange.nextBar_eq s b, trivial, trivial⟩
-    | reset => exact ⟨_, TrueRange.reset_eq s, trivial⟩)
+    | next x =>
+      obtain ⟨r, hr, _⟩ := TrueRange.next_total s x
+      exact fst_some (P := fun _ => True) (Q := fun _ => True) ⟨r, hr, trivial, trivial⟩
+    | bar b =>
+      obtain ⟨r, hr, _⟩ := TrueRange.nextBar_total s b
+      exact fst_some (P := fun _ => True) (Q := fun _ => True) ⟨r, hr, trivial, trivial⟩
+    | reset =>
+      obtain ⟨r, hr⟩ := TrueRange.reset_total s
+      exact ⟨r, hr, trivial⟩)
     (TrueRange.new : TrueRange F) trivial ops
   exact ⟨s', h1⟩
 end TrueRange
@@ -387,9 +352,7 @@ theorem atr_total (p : Nat) (hp : 0 < p) (ops : List (Op F)) :
     cases op with
     | next x => exact fst_some (AverageTrueRange.next_total s x hs)
     | bar b => exact fst_some (AverageTrueRange.nextBar_total s b hs)
-    | reset =>
-      have hpos : 0 < s.period_fn := by rw [AverageTrueRange.period_fn_eq]; exact hs.ema.pos
-      exact ⟨_, AverageTrueRange.reset_eq s hs, AverageTrueRange.fresh_wf _ hpos⟩)
+    | reset => exact drop_tail (AverageTrueRange.reset_total s hs))
     (AverageTrueRange.fresh p) (AverageTrueRange.fresh_wf p hp) ops
   exact ⟨_, s', hnew, h1, h2⟩
 end ATR
@@ -416,9 +379,7 @@ theorem macd_total (fp sp gp : Nat) (hf : 0 < fp) (hs : 0 < sp) (hg : 0 < gp) (o
     cases op with
     | next x => exact fst_some (MovingAverageConvergenceDivergence.next_total s x hw)
     | bar b => exact fst_some (MovingAverageConvergenceDivergence.nextBar_total s b hw)
-    | reset =>
-      exact ⟨_, MovingAverageConvergenceDivergence.reset_eq s hw,
-        MovingAverageConvergenceDivergence.fresh_wf _ _ _ hw.fast.pos hw.slow.pos hw.signal.pos⟩)
+    | reset => exact drop_tail (MovingAverageConvergenceDivergence.reset_total s hw))
     (MovingAverageConvergenceDivergence.fresh fp sp gp)
     (MovingAverageConvergenceDivergence.fresh_wf fp sp gp hf hs hg) ops
   exact ⟨_, s', hnew, h1, h2⟩
@@ -443,9 +404,7 @@ theorem ppo_total (fp sp gp : Nat) (hf : 0 < fp) (hs : 0 < sp) (hg : 0 < gp) (op
     cases op with
     | next x => exact fst_some (PercentagePriceOscillator.next_total s x hw)
     | bar b => exact fst_some (PercentagePriceOscillator.nextBar_total s b hw)
-    | reset =>
-      exact ⟨_, PercentagePriceOscillator.reset_eq s hw,
-        PercentagePriceOscillator.fresh_wf _ _ _ hw.fast.pos hw.slow.pos hw.signal.pos⟩)
+    | reset => exact drop_tail (PercentagePriceOscillator.reset_total s hw))
     (PercentagePriceOscillator.fresh fp sp gp)
     (PercentagePriceOscillator.fresh_wf fp sp gp hf hs hg) ops
   exact ⟨_, s', hnew, h1, h2⟩
@@ -469,10 +428,7 @@ theorem cci_total (p : Nat) (hp : 0 < p) (h8 : p * 8 ≤ isizeMax) (ops : List (
     cases op with
     | next x => exact ⟨s, rfl, hs⟩
     | bar b => exact fst_some (CommodityChannelIndex.nextBar_total s b hs)
-    | reset =>
-      have hpos : 0 < s.period_fn := by rw [CommodityChannelIndex.period_fn_eq]; exact hs.sma.pos
-      have hsm : s.period_fn * 8 ≤ isizeMax := by rw [CommodityChannelIndex.period_fn_eq]; exact hs.sma.small
-      exact ⟨_, CommodityChannelIndex.reset_eq s hs, CommodityChannelIndex.fresh_wf _ hpos hsm⟩)
+    | reset => exact drop_tail (CommodityChannelIndex.reset_total s hs))
     (CommodityChannelIndex.fresh p) (CommodityChannelIndex.fresh_wf p hp h8) ops
   exact ⟨_, s', hnew, h1, h2⟩
 end CCI
@@ -493,12 +449,8 @@ theorem er_total (p : Nat) (hp : 0 < p) (h8 : p * 8 ≤ isizeMax) (ops : List (O
     intro s op hs
     cases op with
     | next x => exact fst_some (EfficiencyRatio.next_total s x hs)
-    | bar b =>
-      have := EfficiencyRatio.next_total s b.close hs
-      rw [← EfficiencyRatio.nextBar_eq s b] at this
-      exact fst_some this
-    | reset =>
-      exact ⟨_, EfficiencyRatio.reset_eq s hs, EfficiencyRatio.fresh_wf _ hs.pos hs.small⟩)
+    | bar b => exact fst_some (EfficiencyRatio.nextBar_total s b hs)
+    | reset => exact drop_tail (EfficiencyRatio.reset_total s hs))
     (EfficiencyRatio.fresh p) (EfficiencyRatio.fresh_wf p hp h8) ops
   exact ⟨_, s', hnew, h1, h2⟩
 end ER
@@ -519,14 +471,8 @@ theorem bb_total (p : Nat) (m : F) (hp : 0 < p) (h8 : p * 8 ≤ isizeMax) (ops :
     intro s op hs
     cases op with
     | next x => exact fst_some (BollingerBands.next_total s x hs)
-    | bar b =>
-      have := BollingerBands.next_total s b.close hs
-      rw [← BollingerBands.nextBar_eq s b] at this
-      exact fst_some this
-    | reset =>
-      have hpos : 0 < s.period := by have := hs.sd.pos; have := hs.per; omega
-      have hsm : s.period * 8 ≤ isizeMax := by have := hs.sd.small; have := hs.per; omega
-      exact ⟨_, BollingerBands.reset_eq s hs, BollingerBands.fresh_wf _ _ hpos hsm⟩)
+    | bar b => exact fst_some (BollingerBands.nextBar_total s b hs)
+    | reset => exact drop_tail (BollingerBands.reset_total s hs))
     (BollingerBands.fresh p m) (BollingerBands.fresh_wf p m hp h8) ops
   exact ⟨_, s', hnew, h1, h2⟩
 end BB
@@ -571,9 +517,7 @@ theorem kc_total (p : Nat) (m : F) (hp : 0 < p) (ops : List (Op F)) :
     cases op with
     | next x => exact fst_some (KeltnerChannel.next_total s x hs)
     | bar b => exact fst_some (KeltnerChannel.nextBar_total s b hs)
-    | reset =>
-      have hpos : 0 < s.period := by have := hs.ema.pos; have := hs.ema_period; omega
-      exact ⟨_, KeltnerChannel.reset_eq s hs, KeltnerChannel.fresh_wf _ _ hpos⟩)
+    | reset => exact drop_tail (KeltnerChannel.reset_total s hs))
     (KeltnerChannel.fresh p m) (KeltnerChannel.fresh_wf p m hp) ops
   exact ⟨_, s', hnew, h1, h2⟩
 end KC
@@ -594,12 +538,8 @@ theorem roc_total (p : Nat) (hp : 0 < p) (h8 : p * 8 ≤ isizeMax) (ops : List (
     intro s op hs
     cases op with
     | next x => exact fst_some (RateOfChange.next_total s x hs)
-    | bar b =>
-      have := RateOfChange.next_total s b.close hs
-      rw [← RateOfChange.nextBar_eq s b] at this
-      exact fst_some this
-    | reset =>
-      exact ⟨_, RateOfChange.reset_eq s hs, RateOfChange.fresh_wf _ hs.pos hs.small⟩)
+    | bar b => exact fst_some (RateOfChange.nextBar_total s b hs)
+    | reset => exact drop_tail (RateOfChange.reset_total s hs))
     (RateOfChange.fresh p) (RateOfChange.fresh_wf p hp h8) ops
   exact ⟨_, s', hnew, h1, h2⟩
 end ROC
@@ -622,8 +562,7 @@ theorem mfi_total (p : Nat) (hp : 0 < p) (h8 : p * 8 ≤ isizeMax) (ops : List (
     cases op with
     | next x => exact ⟨s, rfl, hs⟩
     | bar b => exact fst_some (MoneyFlowIndex.nextBar_total s b hs)
-    | reset =>
-      exact ⟨_, MoneyFlowIndex.reset_eq s hs, MoneyFlowIndex.fresh_wf _ hs.pos hs.small⟩)
+    | reset => exact drop_tail (MoneyFlowIndex.reset_total s hs))
     (MoneyFlowIndex.fresh p) (MoneyFlowIndex.fresh_wf p hp h8) ops
   exact ⟨_, s', hnew, h1, h2⟩
 end MFI
@@ -642,8 +581,12 @@ theorem obv_total (ops : List (Op F)) :
     intro s op _
     cases op with
     | next x => exact ⟨s, rfl, trivial⟩
-    | bar b => exact fst_some (Q := fun _ => True) ⟨_, OnBalanceVolume.nextBar_eq s b, trivial, trivial⟩
-    | reset => exact ⟨_, OnBalanceVolume.reset_eq s, trivial⟩)
+    | bar b =>
+      obtain ⟨r, hr⟩ := OnBalanceVolume.nextBar_some s b
+      exact fst_some (P := fun _ => True) (Q := fun _ => True) ⟨r, hr, trivial, trivial⟩
+    | reset =>
+      obtain ⟨r, hr⟩ := OnBalanceVolume.reset_total s
+      exact ⟨r, hr, trivial⟩)
     (OnBalanceVolume.new : OnBalanceVolume F) trivial ops
   exact ⟨s', h1⟩
 end OBV
